@@ -40,9 +40,24 @@ CHECKS = {
     },
 }
 
+CHECKS['C01'] = {
+    'text': 'Bounded symbolic model checking of the real evaluator: every registered operator overload class is '
+            'executed with stub children returning arbitrary (symbolic) operand values or NULL and compared with an '
+            'independent reference semantics written from the property (node step => trees of any depth by '
+            'structural induction); the compiler\'s overload dispatch is decided for the complete operator x '
+            'operand-dtype matrix on symbolic rows; the WHERE/FROM row loop on tables of <=3 symbolic rows; '
+            'depth-2 expression shapes through print -> parse -> compile -> execute.',
+    'design_ref': 'DESIGN.md section 5, C01',
+    'note': _COMMON_NOTE + ' Decimal operands come from a palette (never symbolic); strings <=3 chars; regular '
+            'expressions from a fixed list of valid patterns; dates 1900-2100; structural induction over the '
+            'compiled tree is argued, not mechanised.',
+    'technique': 'symbolic execution (CrossHair/z3) of EvalNode classes, compiler dispatch and execute_select '
+                 'against a reference interpreter',
+}
+
 NOT_APPLICABLE = {
     pid: 'check under construction in this session; not claimed yet'
-    for pid in ['C01', 'C02', 'C03', 'C04', 'C05', 'C06', 'C07', 'C08', 'C09', 'C11', 'C12', 'C13',
+    for pid in ['C02', 'C03', 'C04', 'C05', 'C06', 'C07', 'C08', 'C09', 'C11', 'C12', 'C13',
                 'C14', 'C15', 'C16', 'C17', 'C18', 'C19', 'C20']
 }
 
